@@ -338,7 +338,7 @@ def interleavings(runner, subs, prefix, report):
 
 def stop_interleave_scenarios(tier):
     """a StopAppMessage handled step by step (suspended at the yields of stop_application) interleaved
-    with a subroutine of another application that allocates; oracle only"""
+    with a subroutine of another application that allocates"""
     pre = [("Init", 0, 0, 2), ("Init", 0, 1, 2), ("QAlloc", 0, 1, 0), ("QAlloc", 0, 1, 1)]
     A = (1, 0, 0, [("QAlloc", 0, 0, 0), ("QAlloc", 0, 0, 1)] + ([("QFree", 0, 0, 0)] if tier != "quick" else []))
     S = (2, 0, 1, "STOP")
@@ -422,12 +422,12 @@ def run(ctx):
                       "(id -> subroutine, program counter) routes a resumed subroutine's instructions to its own application "
                       "is checked by the correspondence and the isolation oracle under generated and enumerated interleavings, "
                       "not proved")
-    ctx.assume.append("a StopAppMessage handled step by step (suspended at the yields of stop_application) passes through "
-                      "states the atomic model does not have: histories containing one are checked by the oracle only "
-                      "(invariant at every step with the not yet released qubits accounted for, isolation at every step); "
-                      "messages of ONE application are handled in order (no Init / subroutine of an id while its stop is "
-                      "suspended) -- with the unchanged code such an Init is refused but QNodeController._add_app has "
-                      "already marked the id active")
+    ctx.assume.append("a StopAppMessage handled step by step (suspended at the yields of stop_application) is modelled by "
+                      "Exec/QmemStop.v (XStopBegin / XStopStep) and compared with the stepped real generator after every step; "
+                      "contract xev_ok: messages of ONE application are handled in order (no Init / subroutine / delivery target of an "
+                      "id while its stop is suspended) -- with the unchanged code such an Init is refused but QNodeController._add_app "
+                      "has already marked the id active; subroutine generators (Start/Step) and stepped stops are separate layers "
+                      "over the same atomic operations")
     ctx.assume.append("Stop is modelled exactly only when set.remove cannot miss (proved under the invariant: C13_no_internal_fault)")
 
     violations = []
@@ -450,8 +450,8 @@ def run(ctx):
     ctx.coverage["corpus_cases"] = n_corpus
 
     def oracle_only(ops):
-        """a stop handled step by step passes through states the atomic model does not have"""
-        return any(o[0] == "StopStart" for o in ops)
+        """(none any more: stops handled step by step are modelled by Exec/QmemStop.v)"""
+        return False
 
     # ---- random walks
     quick = ctx.tier == "quick"
@@ -460,9 +460,11 @@ def run(ctx):
     trees = []
     lens = {}
     n_oracle_only = 0
+    walk_ops = []
     for hno in range(n_walks):
         length = ctx.rng.choice([8, 15, 25, 40, 60] if quick else [8, 15, 25, 40, 60, 120])
         ops = gen_walk(ctx.rng, runner, length, stats, stepped_stop=(hno % 4 == 3))
+        walk_ops.append(ops)
         root, fl, outs, _ = runner.run_history(ops, want_tree=not oracle_only(ops))
         if root is not None:
             trees.append(root)
@@ -476,7 +478,7 @@ def run(ctx):
         for step, b in fl:
             report(ops[:step + 1], step, b)
     ctx.coverage["walk_lengths"] = lens
-    ctx.coverage["walks_with_stepped_stop_oracle_only"] = n_oracle_only
+    ctx.coverage["walks_with_stepped_stop"] = sum(1 for t in walk_ops if any(o[0] == "StopStart" for o in t))
     ctx.coverage["op_and_outcome_distribution"] = stats
 
     # ---- exhaustive small histories
@@ -494,8 +496,9 @@ def run(ctx):
         il_roots.append(r_)
         il_info[name] = dict(subroutines=len(subs), blocks=[len(x[3]) for x in subs], nodes=c_)
     for name, subs, pre in stop_interleave_scenarios(ctx.tier):
-        _, c_ = interleavings(runner, subs, pre, report)
-        il_info[name] = dict(participants=len(subs), nodes=c_, oracle_only=True)
+        r_, c_ = interleavings(runner, subs, pre, report)
+        il_roots.append(r_)
+        il_info[name] = dict(participants=len(subs), nodes=c_, stepped_stop=True)
     ctx.coverage["every_interleaving_scenarios"] = il_info
     # an external reset of the shared-memory registry, then everything
     rst_prefix = [("Init", 0, 0, 2), ("QAlloc", 0, 0, 0), ("ResetMem", 0)]
